@@ -26,7 +26,9 @@ def canon(x):
     return json.dumps(x, sort_keys=True)
 
 
-COMMENTS = [" /* c */ ", " // line\n", "/**/", " /* température €  */ ", "// ünï\n", " /* * / */ ", "\t", "\r\n", "\n", " ", "  "]
+COMMENTS = [" /* c */ ", " // line\n", "/**/", " /* température €  */ ", "// ünï\n", " /* * / */ ", "\t", "\r\n", "\n", " ", "  ",
+            # comment openers and closers inside comments: block comments do not nest, `*/` in a line comment closes nothing
+            " /* a /* b */ ", "/*/*/", " /* // */ ", "// */ /* \n", " /* x /* */ // y */\n", "/***/"]
 
 
 def render(rng, text, upper_hex=True):
@@ -218,6 +220,10 @@ def check_locs(run, text, file_json, rep):
     return True
 
 
+class GiveUp(Exception):
+    pass
+
+
 def main(argv):
     a = C.std_args(argv)
     run = C.Run("C12", a.tier, a.seed)
@@ -234,18 +240,32 @@ def main(argv):
     n = 40 if a.tier == "quick" else 400
     opts = GD.Opts(greedy_structs=True, copy_parents=False, array_modifier=True)
 
+    model_timeouts = [0]
+    driver_deaths = [0]
+
     def both(text, kind):
         r = drv.ask({"op": "parse", "text": text})
-        m = mdl.ask({"op": "parse", "text": text}, timeout=120)
+        m = mdl.ask({"op": "parse", "text": text}, timeout=120) if model_timeouts[0] < 3 else None
+        if m is None and model_timeouts[0] < 3:
+            model_timeouts[0] += 1
         run.case((text,))
         run.hist("texts", kind)
         rep = {"pdl": text, "kind": kind}
         if r is None or r.get("status") == "panic":
-            run.violation("impl", "the parser crashed: %s" % ((r or {}).get("message") or drv.last_death), dict(rep, signature={"class": "panic"}))
+            run.violation("impl", "the parser crashed or did not return within %ds: %s" % (int(drv.timeout), (r or {}).get("message") or drv.last_death),
+                          dict(rep, signature={"class": "panic"}))
+            if r is None:
+                driver_deaths[0] += 1
+                if driver_deaths[0] >= 4:
+                    # (a parser that hangs does so on many texts: each costs the time limit; four are enough to report)
+                    raise GiveUp()
             return None
         run.hist("outcomes", r.get("status"))
         if not m:
-            run.violation("corr", "parser model failed / timed out", dict(rep, corr="corr:C12/parse"), found_input=False)
+            if model_timeouts[0] <= 3:
+                run.violation("corr", "parser model failed / timed out", dict(rep, corr="corr:C12/parse"), found_input=False)
+                if model_timeouts[0] == 3:
+                    model_timeouts[0] += 1      # (reported three times; the model is not asked again in this run)
             return r
         same = r.get("status") == m.get("status")
         if same and r["status"] == "ok":
@@ -257,53 +277,63 @@ def main(argv):
         if same:
             run.count("model_agrees")
         else:
-            run.violation("corr", "parser model and parser::parse_inline disagree on a %s text (real %s, model %s %s)"
-                          % (kind, r.get("status"), m.get("status"), m.get("kind", "")),
-                          dict(rep, real_status=r.get("status"), real_message=r.get("message"), model_status=m.get("status"),
-                               model_kind=m.get("kind"), corr="corr:C12/parse (acceptance, AST, source ranges, comments)"),
-                          found_input=False)
+            if not same_grammar:
+                # the model runs the reference grammar, /repo's grammar has changed: this text is parsed differently
+                run.violation("impl", "parser::parse_inline and the reference grammar (Pdlv.Syntax, pest semantics) disagree on a %s text "
+                              "(real %s, reference %s %s)" % (kind, r.get("status"), m.get("status"), m.get("kind", "")),
+                              dict(rep, real_status=r.get("status"), real_message=r.get("message"), model_status=m.get("status"),
+                                   model_kind=m.get("kind"), signature={"class": "grammar-changed"}))
+            else:
+                run.violation("corr", "parser model and parser::parse_inline disagree on a %s text (real %s, model %s %s)"
+                              % (kind, r.get("status"), m.get("status"), m.get("kind", "")),
+                              dict(rep, real_status=r.get("status"), real_message=r.get("message"), model_status=m.get("status"),
+                                   model_kind=m.get("kind"), corr="corr:C12/parse (acceptance, AST, source ranges, comments)"),
+                              found_input=False)
         return r
 
-    for k in range(n):
-        text, g = GD.generate(rng, opts, n_packets=rng.choice([1, 2]), trees=rng.choice([0, 1]))
-        plain = both(text, "generated")
-        if not plain or plain.get("status") != "ok":
-            if plain is not None:
-                run.violation("impl", "a syntactically valid generated description does not parse: %s" % plain.get("message"),
-                              {"pdl": text, "signature": {"class": "valid-rejected"}})
-            continue
-        want = canon(strip(plain["file"]["declarations"]))
-        check_locs(run, text, plain["file"], {"pdl": text})
-        # print -> parse
-        endian = plain["file"]["endianness"]["value"].replace("_endian", "_endian")
-        printed = printer(plain["file"], "little_endian" if "little" in endian else "big_endian")
-        rp = both(printed, "printed")
-        if rp and (rp.get("status") != "ok" or canon(strip(rp["file"]["declarations"])) != want):
-            run.violation("impl", "printing the AST back as PDL and parsing again does not give an equal AST",
-                          {"pdl": printed, "original": text, "signature": {"class": "print-parse"}})
-        # randomized concrete syntax: same AST
-        for _ in range(3 if a.tier == "quick" else 8):
-            t2 = render(rng, text)
-            r2 = both(t2, "rendered")
-            if not r2:
+    try:
+        for k in range(n):
+            text, g = GD.generate(rng, opts, n_packets=rng.choice([1, 2]), trees=rng.choice([0, 1]))
+            plain = both(text, "generated")
+            if not plain or plain.get("status") != "ok":
+                if plain is not None:
+                    run.violation("impl", "a syntactically valid generated description does not parse: %s" % plain.get("message"),
+                                  {"pdl": text, "signature": {"class": "valid-rejected"}})
                 continue
-            rep = {"pdl": t2, "original": text}
-            if r2.get("status") != "ok":
-                has_upper = bool(re.search(r"\b0X[0-9a-fA-F]", t2))
-                run.violation("impl", "a re-rendering of a valid description (same tokens; radix/case of literals, whitespace, "
-                              "comments, trailing commas) is rejected: %s" % r2.get("message"),
-                              dict(rep, signature={"class": "rendered-rejected", "upper_hex": has_upper,
-                                                   "message": str(r2.get("message"))[:40]}))
-                continue
-            if canon(strip(r2["file"]["declarations"])) != want:
-                run.violation("impl", "a re-rendering of a valid description parses to a different AST",
-                              dict(rep, signature={"class": "rendered-ast"}))
-            check_locs(run, t2, r2["file"], rep)
-        for kind, t3 in near_misses(rng, text)[: (10 if a.tier == "quick" else 40)]:
-            r3 = both(t3, "near-miss:" + kind)
-            if r3 and r3.get("status") == "ok":
-                check_locs(run, t3, r3["file"], {"pdl": t3})
-        run.sample({"pdl": text[:200]}, limit=3)
+            want = canon(strip(plain["file"]["declarations"]))
+            check_locs(run, text, plain["file"], {"pdl": text})
+            # print -> parse
+            endian = plain["file"]["endianness"]["value"].replace("_endian", "_endian")
+            printed = printer(plain["file"], "little_endian" if "little" in endian else "big_endian")
+            rp = both(printed, "printed")
+            if rp and (rp.get("status") != "ok" or canon(strip(rp["file"]["declarations"])) != want):
+                run.violation("impl", "printing the AST back as PDL and parsing again does not give an equal AST",
+                              {"pdl": printed, "original": text, "signature": {"class": "print-parse"}})
+            # randomized concrete syntax: same AST
+            for _ in range(3 if a.tier == "quick" else 8):
+                t2 = render(rng, text)
+                r2 = both(t2, "rendered")
+                if not r2:
+                    continue
+                rep = {"pdl": t2, "original": text}
+                if r2.get("status") != "ok":
+                    has_upper = bool(re.search(r"\b0X[0-9a-fA-F]", t2))
+                    run.violation("impl", "a re-rendering of a valid description (same tokens; radix/case of literals, whitespace, "
+                                  "comments, trailing commas) is rejected: %s" % r2.get("message"),
+                                  dict(rep, signature={"class": "rendered-rejected", "upper_hex": has_upper,
+                                                       "message": str(r2.get("message"))[:40]}))
+                    continue
+                if canon(strip(r2["file"]["declarations"])) != want:
+                    run.violation("impl", "a re-rendering of a valid description parses to a different AST",
+                                  dict(rep, signature={"class": "rendered-ast"}))
+                check_locs(run, t2, r2["file"], rep)
+            for kind, t3 in near_misses(rng, text)[: (10 if a.tier == "quick" else 40)]:
+                r3 = both(t3, "near-miss:" + kind)
+                if r3 and r3.get("status") == "ok":
+                    check_locs(run, t3, r3["file"], {"pdl": t3})
+            run.sample({"pdl": text[:200]}, limit=3)
+    except GiveUp:
+        run.count("gave_up_after_parser_timeouts")
     # SourceLocation::new itself
     for _ in range(300 if a.tier == "quick" else 3000):
         ls = sorted(set(rng.randrange(0, 200) for _ in range(rng.randint(0, 8))))
